@@ -171,6 +171,20 @@ def rule_length_vs_area(report, prog):
                      detail=found)
 
 
+def rule_tt4_addressing(report, prog, rule='C08-R2'):
+    """Type 4 Tag: READ BINARY carries the file offset in P1 P2.  (a) the capacity the discovery derives from an arbitrary capability
+    container leaves every message octet below the first offset the command as built cannot carry (C01-R6's clause, run here because a
+    tag that announces more makes the reader raise struct.error); (b) the reader folded against a file that answers every offset, at
+    the largest admissible capacity and with announced lengths at, above and far above it, hands only such offsets to READ BINARY,
+    ends, and accepts no message longer than the capacity."""
+    from . import c01, t4model
+    c01.rule_tt4_layout(report, prog, rule=rule)
+    f = prog.func('nfc.tag.tt4.Type4Tag.NDEF._read_ndef_data')
+    problems, n = t4model.reader_offsets(prog)
+    report.check(not problems, rule, key(f.qname, 'folded reader addresses only offsets READ BINARY can carry, ends, accepts at most capacity octets'), f.loc(),
+                 '; '.join(problems[:3]), detail='folded for %d (NLEN width, capacity, announced length, MLe) points against a file that answers every offset' % n)
+
+
 def rule_progress(report, prog):
     n = 0
     # TLV walks: offset advances by tlv_l + 1 + (1|3) >= 1 on every cycle that does not leave the loop
@@ -420,6 +434,7 @@ def run(report, prog, tier):
     res = Resolver(prog)
     rule_escape(report, prog, res)
     rule_length_vs_area(report, prog)
+    rule_tt4_addressing(report, prog)
     rule_progress(report, prog)
     rule_result_arity(report, prog, res)
     rule_dispatch_tables(report, prog)
@@ -565,6 +580,8 @@ def activate_tt1""", 'C08-R1'),
 """, """            if attributes['ln'] > self._capacity:
                 log.debug("ndef message length exceeds the data area")
 """, 'C08-R2'),
+    ('tt4-capacity-unclamped', 'nfc.tag.tt4', "self._capacity = min(mfs, 0x10000) - tag + 2", "self._capacity = mfs - tag + 2", 'C08-R2'),
+    ('tt4-reader-offset-without-nlen', 'nfc.tag.tt4', "offset = self._nlen_size + len(data)", "offset = self._nlen_size + self._nlen_size + len(data)", 'C08-R2'),
     ('tt4-length-vs-capacity-wrong-operand', 'nfc.tag.tt4', "                if nlen > self._capacity:", "                if nlen > 65535:", 'C08-R2'),
 ]
 MUTANTS = [m for m in MUTANTS if m[4] != 'C08-NONE']
